@@ -197,6 +197,43 @@ theorem callG_log (never d : Nat) (w w' : World) (n now : Nat) (h : callG never 
     simp only [] at this
     simp [this, upd]
 
+theorem gptFinish_log (never d : Nat) (w w' : World) (n mn mn' : Nat)
+    (h : gptFinish never d w n mn = some (w', mn')) : w'.log = w.log := by
+  simp only [gptFinish] at h
+  split at h
+  · cases h; rfl
+  · cases h
+
+/-- the shape of one `GetPulseTimeAux` call: a first pass (ask if the request does not stand, recalculate the needy
+    children); a second pass exactly when the request does not stand after the first; then the filing.  In particular a
+    node is asked at most twice by its own `GetPulseTimeAux` call, however often it invalidates itself. -/
+theorem gptAux_shape (never d k : Nat) (w w' : World) (n now mn m : Nat)
+    (h : gptAux never d (k+1) w n now mn = some (w', m)) :
+    ∃ w1 w2 m2, (if (w.f n).valid then some w else callG never d w n now) = some w1 ∧
+      gptLoop never d k w1 n now mn = some (w2, m2) ∧
+      (((w2.f n).valid = true ∧ gptFinish never d w2 n m2 = some (w', m)) ∨
+       ((w2.f n).valid = false ∧ ∃ w3 w4 m4, callG never d w2 n now = some w3 ∧
+          gptLoop never d k w3 n now m2 = some (w4, m4) ∧ gptFinish never d w4 n m4 = some (w', m))) := by
+  simp only [gptAux] at h
+  split at h
+  · cases h
+  · rename_i w1 h1
+    split at h
+    · cases h
+    · rename_i w2 m2 h2
+      refine ⟨w1, w2, m2, h1, h2, ?_⟩
+      split at h
+      · rename_i hv; exact Or.inl ⟨hv, h⟩
+      · rename_i hv
+        refine Or.inr ⟨by simpa using hv, ?_⟩
+        split at h
+        · cases h
+        · rename_i w3 h3
+          split at h
+          · cases h
+          · rename_i w4 m4 h4
+            exact ⟨w3, w4, m4, h3, h4, h⟩
+
 theorem gpt_log (never d : Nat) : ∀ (k : Nat),
     (∀ (w w' : World) (n now mn mn' : Nat), gptAux never d k w n now mn = some (w', mn') → ∃ l, w'.log = w.log ++ l) ∧
     (∀ (w w' : World) (n now mn mn' : Nat), gptLoop never d k w n now mn = some (w', mn') → ∃ l, w'.log = w.log ++ l) := by
@@ -206,25 +243,19 @@ theorem gpt_log (never d : Nat) : ∀ (k : Nat),
   | succ k ih =>
     refine ⟨?_, ?_⟩
     · intro w w' n now mn mn' h
-      simp only [gptAux] at h
-      split at h
-      · cases h
-      · rename_i w1 h1
-        have g1 : ∃ l, w1.log = w.log ++ l := by
-          split at h1
-          · cases h1; exact ⟨[], by simp⟩
-          · exact ⟨_, callG_log never d w w1 n now h1⟩
-        split at h
-        · cases h
-        · rename_i w2 mn2 h2
-          obtain ⟨l1, e1⟩ := g1
-          obtain ⟨l2, e2⟩ := ih.2 w1 w2 n now mn mn2 h2
-          have e3 : w'.log = w2.log := by
-            simp only [gptFinish] at h
-            split at h
-            · cases h; rfl
-            · cases h
-          exact ⟨l1 ++ l2, by rw [e3, e2, e1, List.append_assoc]⟩
+      obtain ⟨w1, w2, m2, h1, h2, hr⟩ := gptAux_shape never d k w w' n now mn mn' h
+      have g1 : ∃ l, w1.log = w.log ++ l := by
+        split at h1
+        · cases h1; exact ⟨[], by simp⟩
+        · exact ⟨_, callG_log never d w w1 n now h1⟩
+      obtain ⟨l1, e1⟩ := g1
+      obtain ⟨l2, e2⟩ := ih.2 w1 w2 n now mn m2 h2
+      rcases hr with ⟨_, hf⟩ | ⟨_, w3, w4, m4, h3, h4, hf⟩
+      · exact ⟨l1 ++ l2, by rw [gptFinish_log never d w2 w' n m2 mn' hf, e2, e1, List.append_assoc]⟩
+      · have e3 := callG_log never d w2 w3 n now h3
+        obtain ⟨l4, e4⟩ := ih.2 w3 w4 n now m2 m4 h4
+        exact ⟨l1 ++ l2 ++ [.G n now (w2.f n).myTime (w3.f n).myTime] ++ l4, by
+          rw [gptFinish_log never d w4 w' n m4 mn' hf, e4, e3, e2, e1]; simp⟩
     · intro w w' n now mn mn' h
       simp only [gptLoop] at h
       split at h
@@ -241,36 +272,112 @@ theorem gpt_log (never d : Nat) : ∀ (k : Nat),
 theorem gptAux_asks (never d k : Nat) (w w' : World) (n now mn mn' : Nat)
     (hv : (w.f n).valid = false) (h : gptAux never d (k+1) w n now mn = some (w', mn')) :
     ∃ ret l, w'.log = w.log ++ [.G n now (w.f n).myTime ret] ++ l := by
-  simp only [gptAux] at h
-  split at h
-  · cases h
-  · rename_i w1 h1
-    simp only [hv] at h1
-    have e1 := callG_log never d w w1 n now (by simpa using h1)
-    split at h
-    · cases h
-    · rename_i w2 mn2 h2
-      obtain ⟨l2, e2⟩ := (gpt_log never d k).2 w1 w2 n now mn mn2 h2
-      have e3 : w'.log = w2.log := by
-        simp only [gptFinish] at h
-        split at h
-        · cases h; rfl
-        · cases h
-      exact ⟨_, l2, by rw [e3, e2, e1]⟩
+  obtain ⟨l, e⟩ := (gpt_log never d (k+1)).1 w w' n now mn mn' h
+  obtain ⟨w1, w2, m2, h1, h2, hr⟩ := gptAux_shape never d k w w' n now mn mn' h
+  simp only [hv] at h1
+  have e1 := callG_log never d w w1 n now (by simpa using h1)
+  obtain ⟨l2, e2⟩ := (gpt_log never d k).2 w1 w2 n now mn m2 h2
+  rcases hr with ⟨_, hf⟩ | ⟨_, w3, w4, m4, h3, h4, hf⟩
+  · exact ⟨_, l2, by rw [gptFinish_log never d w2 w' n m2 mn' hf, e2, e1]⟩
+  · have e3 := callG_log never d w2 w3 n now h3
+    obtain ⟨l4, e4⟩ := (gpt_log never d k).2 w3 w4 n now m2 m4 h4
+    exact ⟨(w1.f n).myTime, l2 ++ [.G n now (w2.f n).myTime (w3.f n).myTime] ++ l4, by
+      rw [gptFinish_log never d w4 w' n m4 mn' hf, e4, e3, e2, e1]; simp⟩
 
-/-- a visited node whose request stands is not asked: the sweep goes straight to its children -/
-theorem gptAux_keeps (never d k : Nat) (w w' : World) (n now mn mn' : Nat)
-    (hv : (w.f n).valid = true) (h : gptAux never d (k+1) w n now mn = some (w', mn')) :
-    ∃ w2 mn2, gptLoop never d k w n now mn = some (w2, mn2) ∧ gptFinish never d w2 n mn2 = some (w', mn') := by
-  simp only [gptAux] at h
+/-- THE REPAIR, part 1: a request that is invalidated while the node's own `GetPulseTimeAux` is in progress (by its own
+    `GetPulseTime`, by a descendant's callback, by a detach + re-attach) is not lost: the node is asked again in the same
+    call, with the answer it gave the first time as the previous time -/
+theorem gptAux_reasks_in_progress (never d k : Nat) (w w' : World) (n now mn m : Nat)
+    (h : gptAux never d (k+1) w n now mn = some (w', m)) (w1 w2 : World) (m2 : Nat)
+    (h1 : (if (w.f n).valid then some w else callG never d w n now) = some w1)
+    (h2 : gptLoop never d k w1 n now mn = some (w2, m2)) (hv : (w2.f n).valid = false) :
+    ∃ ret l, w'.log = w2.log ++ [.G n now (w2.f n).myTime ret] ++ l := by
+  obtain ⟨w1', w2', m2', h1', h2', hr⟩ := gptAux_shape never d k w w' n now mn m h
+  rw [h1] at h1'; cases h1'
+  rw [h2] at h2'; cases h2'
+  rcases hr with ⟨hv', _⟩ | ⟨_, w3, w4, m4, h3, h4, hf⟩
+  · rw [hv] at hv'; cases hv'
+  · have e3 := callG_log never d w2 w3 n now h3
+    obtain ⟨l4, e4⟩ := (gpt_log never d k).2 w3 w4 n now m2 m4 h4
+    exact ⟨_, l4, by rw [gptFinish_log never d w4 w' n m4 m hf, e4, e3]⟩
+
+/-- THE REPAIR, part 2: when `GetPulseTimeAux` returns, the node's request stands — or (it was invalidated yet again during
+    the re-evaluation) its aggregate time is 0 and the reported wake-up time is 0, so the event loop does not wait and the
+    next `PulseAux` visits the node -/
+theorem gptAux_live (never d k : Nat) (w w' : World) (n now mn m : Nat)
+    (h : gptAux never d (k+1) w n now mn = some (w', m)) :
+    (w'.f n).valid = true ∨ ((w'.f n).agg = 0 ∧ m = 0) := by
+  obtain ⟨w1, w2, m2, h1, h2, hr⟩ := gptAux_shape never d k w w' n now mn m h
+  rcases hr with ⟨hv, hf⟩ | ⟨_, w3, w4, m4, h3, h4, hf⟩
+  · exact Or.inl (by rw [(gptFinish_live never d w2 w' n m2 m hf).1]; exact hv)
+  · have hl := gptFinish_live never d w4 w' n m4 m hf
+    cases hv4 : (w4.f n).valid with
+    | true => exact Or.inl (by rw [hl.1]; exact hv4)
+    | false => exact Or.inr (hl.2 hv4)
+
+/-- what `PulseAux` does with such a node (and with every node it visits): if the node still has a parent at the end,
+    it is flagged NEEDSRECALC — so the next `GetPulseTimeAux` sweep asks it -/
+theorem resched_recalc_cur (never : Nat) : ∀ (d : Nat) (f : Forest) (p c : Nat) (f' : Forest),
+    resched never d f p c (some .recalc) = some f' →
+    (∀ x, (f x).cur = some .recalc → (f' x).cur = some .recalc) ∧ (f' c).cur = some .recalc := by
+  intro d
+  induction d with
+  | zero => intro f p c f' h; simp [resched] at h
+  | succ d ih =>
+    intro f p c f' h
+    simp only [resched] at h
+    by_cases hc : (f c).cur = some .recalc
+    · have : ¬ (some Which.recalc ≠ (f c).cur ∨ (f c).cur = some Which.sched) := by rw [hc]; simp
+      simp only [this, if_false] at h
+      cases h; exact ⟨fun _ hx => hx, hc⟩
+    · have hcond : (some Which.recalc ≠ (f c).cur ∨ (f c).cur = some Which.sched) := Or.inl (fun e => hc e.symm)
+      simp only [hcond, if_true] at h
+      have cur_upd_list : ∀ (g : Forest) (q : Nat) (wh : Which) (l : List Nat) (x : Nat),
+          (setL g q wh l x).cur = (g x).cur := by
+        intro g q wh l x
+        unfold setL upd
+        by_cases hx : x = q
+        · subst hx; cases wh <;> simp [Node.setList]
+        · simp [hx]
+      have k2 : ∀ x, (f x).cur = some .recalc → (setCur (unlink f p c) c (some .recalc) x).cur = some .recalc := by
+        intro x hx
+        unfold setCur upd
+        by_cases hxc : x = c
+        · simp [hxc]
+        · simp only [hxc, if_false]
+          unfold unlink
+          cases hl : (f c).cur with
+          | none => exact hx
+          | some l => show (setL f p l _ x).cur = _; rw [cur_upd_list]; exact hx
+      have c2 : (setCur (unlink f p c) c (some .recalc) c).cur = some .recalc := by simp [setCur, upd]
+      generalize setCur (unlink f p c) c (some .recalc) = f2 at h k2 c2
+      split at h
+      · rename_i f3 h3
+        cases h
+        have k3 : ∀ x, (f2 x).cur = some .recalc → (f3 x).cur = some .recalc := by
+          split at h3
+          · exact (ih _ _ _ _ h3).1
+          · cases h3; exact fun _ hx => hx
+        exact ⟨fun x hx => by rw [cur_upd_list]; exact k3 x (k2 x hx), by rw [cur_upd_list]; exact k3 c c2⟩
+      · cases h
+
+theorem pulseAux_marks (never d k : Nat) (w w' : World) (n now : Nat)
+    (h : pulseAux never d (k+1) w n now = some w') (q : Nat) (hq : (w'.f n).parent = some q) :
+    (w'.f n).cur = some .recalc := by
+  simp only [pulseAux] at h
   split at h
   · cases h
-  · rename_i w1 h1
-    simp only [hv, if_true] at h1
-    cases h1
-    split at h
+  · split at h
     · cases h
-    · rename_i w2 mn2 h2
-      exact ⟨w2, mn2, h2, h⟩
+    · rename_i w2 h2
+      simp only [pulseFinish] at h
+      split at h
+      · rename_i p hp
+        simp only [Option.map_eq_some_iff] at h
+        obtain ⟨f', hf, rfl⟩ := h
+        exact (resched_recalc_cur never d w2.f p n f' hf).2
+      · rename_i hp
+        cases h
+        rw [hp] at hq; cases hq
 
 end Muscle.Pulse
